@@ -173,4 +173,222 @@ theorem succIdx_sub (lens comb : List Nat) : ∀ t ∈ succIdx lens comb comb.le
   obtain ⟨t', ht', rfl⟩ := succIdx_aux lens comb.length 0 [] comb rfl (by simp) t (by simpa using h)
   simpa using ht'
 
+/-! ### the frontier of one derivation queue never holds an index tuple twice -/
+
+/-- the index tuples of one derivation queue: `F` pushed and not yet expanded, `D` expanded -/
+structure Front where
+  F : List (List Nat)
+  D : List (List Nat)
+
+/-- no tuple twice (frontier and expanded together), and every non-zero tuple was generated by its
+    predecessor, which has been expanded -/
+def FrontInv (a : Front) : Prop :=
+  (a.F ++ a.D).Nodup ∧ ∀ t ∈ a.F ++ a.D, nonzero t = true → parent t ∈ a.D
+
+/-- one expansion, as `query_derivation` does it for a popped index tuple `c`: `c` leaves the frontier and
+    pairwise distinct successors of `c` (ALL of `succs c`, or fewer when cost lists end: `succIdx`) enter it -/
+inductive Front.Step : Front → Front → Prop
+  | expand (F1 F2 D : List (List Nat)) (c : List Nat) (new : List (List Nat)) : new.Nodup → (∀ t ∈ new, t ∈ succs c) →
+      Front.Step ⟨F1 ++ c :: F2, D⟩ ⟨F1 ++ F2 ++ new, c :: D⟩
+
+inductive Front.Reach : Front → Front → Prop
+  | refl (a : Front) : Front.Reach a a
+  | step {a b c : Front} : Front.Reach a b → Front.Step b c → Front.Reach a c
+
+theorem front_init (n : Nat) : FrontInv ⟨[List.replicate n 0], []⟩ := by
+  refine ⟨by simp, ?_⟩
+  intro t ht hnz
+  simp only [List.append_nil, List.mem_singleton] at ht
+  subst ht
+  simp [nonzero] at hnz
+
+theorem front_step {a b : Front} (ha : FrontInv a) (h : Front.Step a b) : FrontInv b := by
+  cases h with
+  | expand F1 F2 D c new hnd hsub =>
+    obtain ⟨h1, h2⟩ := ha
+    simp only at h1 h2
+    have hcF : c ∈ F1 ++ c :: F2 := by simp
+    have hcD : c ∉ D := by
+      intro hc
+      have := (List.nodup_append.mp h1).2.2 c hcF c hc
+      exact this rfl
+    have hnew : ∀ t ∈ new, t ∉ (F1 ++ c :: F2) ++ D := by
+      intro t ht hmem
+      obtain ⟨hnz, hp⟩ := (mem_succs_iff c t).mp (hsub t ht)
+      have := h2 t hmem hnz
+      rw [hp] at this
+      exact hcD this
+    have hperm : ((F1 ++ F2 ++ new) ++ c :: D).Perm (new ++ ((F1 ++ c :: F2) ++ D)) := by
+      have e1 : ((F1 ++ F2 ++ new) ++ c :: D).Perm (new ++ (F1 ++ F2) ++ c :: D) :=
+        List.Perm.append_right _ List.perm_append_comm
+      refine e1.trans ?_
+      simp only [List.append_assoc]
+      refine List.Perm.append_left new ?_
+      refine List.Perm.append_left F1 ?_
+      exact (List.perm_middle (a := c) (l₁ := F2) (l₂ := D))
+    refine ⟨?_, ?_⟩
+    · show ((F1 ++ F2 ++ new) ++ c :: D).Nodup
+      rw [hperm.nodup_iff, List.nodup_append]
+      exact ⟨hnd, h1, fun x hx y hy hxy => hnew x hx (hxy ▸ hy)⟩
+    · intro t ht hnz
+      show parent t ∈ c :: D
+      have ht' := hperm.mem_iff.mp ht
+      rcases List.mem_append.mp ht' with h3 | h3
+      · rw [((mem_succs_iff c t).mp (hsub t h3)).2]; exact List.mem_cons_self
+      · exact List.mem_cons_of_mem _ (h2 t h3 hnz)
+
+/-- **along every sequence of expansions from the initial frontier `(0,…,0)`, whatever the order of the pops and
+    whatever the lengths of the cost lists at each expansion, no index tuple is ever generated twice** -/
+theorem front_reach_nodup (n : Nat) (b : Front) (h : Front.Reach ⟨[List.replicate n 0], []⟩ b) : (b.F ++ b.D).Nodup := by
+  have : FrontInv b := by
+    induction h with
+    | refl => exact front_init n
+    | step _ hs ih => exact front_step ih hs
+  exact this.1
+
+/-! ### the successor loop of the machine pushes exactly `succIdx` -/
+
+/-- `len(self._cost_lists_nt[args[i]])` for every argument position -/
+def lensOf {α : Type} (s : St α) (args : List NT) : List Nat :=
+  args.map fun Si => ((AList.lookup Si s.costNt).getD []).length
+
+/-- **the loop of the model** (`succLoop`, the code path `query_derivation` runs) changes nothing but the
+    derivation queue of `args`, and what it pushes into it are exactly the index tuples `succIdx` -/
+theorem succLoop_spec {α : Type} (A : Arith α) (asserts : Bool) (args : List NT) (c : α) (comb : List Nat) :
+    ∀ (rem i : Nat) (s s' : St α), succLoop A asserts args c comb rem i s = some s' →
+    ∀ q, AList.lookup args s.queueDer = some q → QWF q →
+    ∃ q', AList.lookup args s'.queueDer = some q' ∧ QWF q' ∧
+      q'.contents.Perm (q.contents ++ succIdx (lensOf s args) comb rem i) ∧ q'.k = q.k ∧ q'.maxi = q.maxi ∧
+      s' = { s with queueDer := s'.queueDer } ∧
+      (∀ a, a ≠ args → AList.lookup a s'.queueDer = AList.lookup a s.queueDer) := by
+  intro rem
+  induction rem with
+  | zero =>
+    intro i s s' h q hq hwf
+    simp only [succLoop, Option.some.injEq] at h
+    subst h
+    refine ⟨q, hq, hwf, by simp [succIdx], ?_⟩
+    exact ⟨rfl, rfl, rfl, fun _ _ => rfl⟩
+  | succ rem ih =>
+    intro i s s' h q hq hwf
+    simp only [succLoop] at h
+    split at h
+    · rename_i x Si hx hSi
+      split at h
+      · simp at h
+      · rename_i cl hcl
+        have hlen : (lensOf s args)[i]? = some cl.length := by
+          simp [lensOf, List.getElem?_map, hSi, hcl]
+        simp only [succIdx, hx, hlen]
+        split at h
+        · rename_i hge
+          simp only [hge, if_true]
+          split at h
+          · simp only [Option.some.injEq] at h
+            subst h
+            rename_i h1
+            simp only [h1, if_true]
+            exact ⟨q, hq, hwf, by simp, by simp⟩
+          · rename_i h1
+            simp only [h1, if_false]
+            exact ih _ _ _ h q hq hwf
+        · rename_i hge
+          simp only [hge, if_false]
+          split at h
+          · rename_i c0 c1 q0 _ _ hq0
+            rw [hq] at hq0
+            simp only [Option.some.injEq] at hq0
+            subst hq0
+            split at h
+            · simp at h
+            · rename_i q1 hpush
+              obtain ⟨hwf1, _, hperm1, hk1, hm1⟩ := qwf_push A q q1 _ asserts hwf hpush
+              have hlook : AList.lookup args (s.setQueueDer args q1).queueDer = some q1 := by
+                simp [St.setQueueDer, AList.lookup_insert_self]
+              have hne : ∀ a, a ≠ args → AList.lookup a (s.setQueueDer args q1).queueDer = AList.lookup a s.queueDer := by
+                intro a ha
+                simp [St.setQueueDer, AList.lookup_insert_ne _ _ ha]
+              split at h
+              · rename_i h1
+                simp only [Option.some.injEq] at h
+                subst h
+                simp only [h1, if_true]
+                exact ⟨q1, hlook, hwf1, by simpa [Q.contents] using hperm1, by simpa using hk1, by simpa using hm1, by first | rfl | simp [St.setQueueDer], hne⟩
+              · rename_i h1
+                simp only [h1, if_false]
+                obtain ⟨q2, h2a, h2b, h2c, h2d, h2e, h2f, h2g⟩ := ih _ _ _ h q1 hlook hwf1
+                refine ⟨q2, h2a, h2b, ?_, by rw [h2d, hk1], by rw [h2e, hm1], ?_, ?_⟩
+                · have hl : lensOf (s.setQueueDer args q1) args = lensOf s args := rfl
+                  rw [hl] at h2c
+                  refine h2c.trans ?_
+                  have : (q1.contents ++ succIdx (lensOf s args) comb rem (i + 1)).Perm
+                      ((q.contents ++ [comb.set i (x + 1)]) ++ succIdx (lensOf s args) comb rem (i + 1)) :=
+                    List.Perm.append_right _ (by simpa using hperm1)
+                  refine this.trans ?_
+                  simp
+                · rw [h2f]; rfl
+                · intro a ha
+                  rw [h2g a ha, hne a ha]
+          · simp at h
+    · simp at h
+
+/-- the tuples pushed from position `i'` on leave the positions before `i'` untouched -/
+theorem succIdx_keeps (lens comb : List Nat) : ∀ (rem i' i : Nat), i < i' → ∀ t ∈ succIdx lens comb rem i', t[i]? = comb[i]? := by
+  intro rem
+  induction rem with
+  | zero => intro i' i _ t h; simp [succIdx] at h
+  | succ rem ih =>
+    intro i' i hi t h
+    simp only [succIdx] at h
+    split at h
+    · rename_i x len hx hl
+      split at h
+      · split at h
+        · simp at h
+        · exact ih _ _ (by omega) t h
+      · rcases List.mem_cons.mp h with h1 | h1
+        · subst h1
+          rw [List.getElem?_set_ne (by omega)]
+        · split at h1
+          · simp at h1
+          · exact ih _ _ (by omega) t h1
+    · simp at h
+
+theorem succIdx_nodup (lens comb : List Nat) : ∀ (rem i : Nat), (succIdx lens comb rem i).Nodup := by
+  intro rem
+  induction rem with
+  | zero => intro i; simp [succIdx]
+  | succ rem ih =>
+    intro i
+    simp only [succIdx]
+    split
+    · rename_i x len hx hl
+      split
+      · split
+        · simp
+        · exact ih _
+      · rw [List.nodup_cons]
+        constructor
+        · split
+          · simp
+          · intro hmem
+            have := succIdx_keeps lens comb rem (i + 1) i (by omega) _ hmem
+            have hlt : i < comb.length := (List.getElem?_eq_some_iff.mp hx).1
+            rw [List.getElem?_set_self hlt, hx] at this
+            simp at this
+        · split
+          · simp
+          · exact ih _
+    · simp
+
+/-- every index tuple the machine pushes when it expands `comb` is a successor of `comb` in the sense of the
+    bijection lemma, of the same length -/
+theorem succLoop_pushes_successors {α : Type} (A : Arith α) (asserts : Bool) (args : List NT) (c : α) (comb : List Nat)
+    (s s' : St α) (h : succLoop A asserts args c comb comb.length 0 s = some s') (q : Q α)
+    (hq : AList.lookup args s.queueDer = some q) (hwf : QWF q) :
+    ∃ q' pushed, AList.lookup args s'.queueDer = some q' ∧ QWF q' ∧ q'.contents.Perm (q.contents ++ pushed) ∧
+      pushed.Nodup ∧ ∀ t ∈ pushed, t ∈ succs comb ∧ t.length = comb.length := by
+  obtain ⟨q', h1, h2, h3, _⟩ := succLoop_spec A asserts args c comb _ _ _ _ h q hq hwf
+  exact ⟨q', _, h1, h2, h3, succIdx_nodup _ _ _ _, fun t ht => ⟨succIdx_sub _ _ t ht, succs_length _ _ (succIdx_sub _ _ t ht)⟩⟩
+
 end PS.CD
